@@ -40,7 +40,6 @@ CLAUSES = [
     ("cl_user_prefixes", "reserved-or-invalid-user-prefix"),
     ("cl_texts", "non-xml-char-not-rejected"),
     ("cl_adjacent", "adjacent-data-misplaced"),
-    ("cl_default_attr", "default-ns-attribute-unprefixed"),
     ("cl_default_qname", "qname-value-default-ns-reset"),
     ("cl_late_qname", "late-qname-data-undeclared-prefix"),
     ("cl_clark", "datatype-clark-text-rewritten"),
@@ -256,7 +255,7 @@ class Gen:
 
 
 WITNESSES = [
-    ("default-ns-attribute-unprefixed",
+    ("fixed:default-ns-attribute-unprefixed",
      {"user": [[None, "urn:a"]], "events": [["start", ["urn:a", "r"]], ["attr", ["urn:a", "x"], {"t": "1"}], ["end", ["urn:a", "r"]]]}),
     ("reserved-or-invalid-user-prefix",
      {"user": [["xml", "urn:a"]], "events": [["start", ["urn:a", "r"]], ["end", ["urn:a", "r"]]]}),
